@@ -21,9 +21,10 @@ META = {
             "Layer::save's expect (any history of glyph operations without OccupiedEntry::remove), rename_glyph's unwrap, "
             "Store::get's unreachable and save's two expects after the pre-check, the data walk's strip_prefix, "
             "destination.parent(), every dump_object_libs id.unwrap(), the upconversion Name::new / get unwraps, "
-            "make_unique_group_name (terminates by pigeonhole), ValueInnerHelper's unreachable. Four sites are REACHABLE "
-            "(witness theorems + the positive theorem under the exact excluding hypothesis): Layer::load_impl file_name()."
-            "unwrap() for a layer directory ending in `..`, Image::to_event to_str().expect for a non-UTF-8 file name, "
+            "make_unique_group_name (terminates by pigeonhole), ValueInnerHelper's unreachable, Layer::load_impl's "
+            "file_name().unwrap() behind the plain-name test of LayerContents::load, Image::to_event's to_str().expect "
+            "(Image::new, the only constructor, rejects non-Unicode names). Two sites are REACHABLE "
+            "(witness theorems + the positive theorem under the exact excluding hypothesis): "
             "Layer::save's expect after OccupiedEntry::remove through Layer::entry, layers[0] after a non-default Layer value "
             "is assigned over the default slot and retain() then empties the list. Every site of src/ (unwrap, expect, "
             "panic-family macros, index/slice, integer arithmetic, panicking std methods, calls of panicking constructors, "
@@ -57,8 +58,6 @@ ASSUMPTIONS = [
 
 # class id -> (prefix of the site key the panic must come from, words)
 CLASSES = {
-    "layer-dir-dotdot": "src/layer.rs|impl Layer::load_impl|unwrap|",
-    "image-non-utf8": "src/glyph/serialize.rs|impl Image::to_event|expect|",
     "entry-remove": "src/layer.rs|impl Layer::save_with_options|expect|",
     "layer-slot-assign": "src/layer.rs|impl LayerContents::default_layer",
     "ds-doctype-in-text": "outside-norad:quick-xml-",
